@@ -91,12 +91,12 @@ func (r *W3Run) runRead(op W3Op) (*histOp, []searchLeg) {
 // C09
 
 type C09Case struct {
-	W3       W3Case    `json:"w3"`
-	Items    int       `json:"items"`
-	Searches []W3Op    `json:"searches"`
-	Down     []int     `json:"down,omitempty"`     // nodes crashed before the searches
-	Cut      [][2]int  `json:"cut,omitempty"`      // links blocked before the searches
-	DropResp float64   `json:"drop_resp,omitempty"` // response loss during the searches
+	W3       W3Case   `json:"w3"`
+	Items    int      `json:"items"`
+	Searches []W3Op   `json:"searches"`
+	Down     []int    `json:"down,omitempty"`      // nodes crashed before the searches
+	Cut      [][2]int `json:"cut,omitempty"`       // links blocked before the searches
+	DropResp float64  `json:"drop_resp,omitempty"` // response loss during the searches
 }
 
 func genC09(r *simrt.Rand, tier string) json.RawMessage {
@@ -841,9 +841,9 @@ type partsView struct{ ids []uuid.UUID }
 // C17
 
 type C17Case struct {
-	W3    W3Case `json:"w3"`
-	Items int    `json:"items"`
-	Down  []int  `json:"down,omitempty"`
+	W3    W3Case   `json:"w3"`
+	Items int      `json:"items"`
+	Down  []int    `json:"down,omitempty"`
 	Cut   [][2]int `json:"cut,omitempty"`
 }
 
@@ -892,9 +892,9 @@ func execC17(raw json.RawMessage, wantLog bool) (out Outcome) {
 		info := r.ds[0]
 		// per partition: len and the range of BytesSize over its replicas
 		type pr struct {
-			n        int
+			n          int
 			bmin, bmax uint64
-			hosts    []uint64
+			hosts      []uint64
 		}
 		parts := map[uuid.UUID]*pr{}
 		for _, n := range r.aliveNodes() {
